@@ -607,6 +607,20 @@ impl Obs for C08 {
             (got, want, hist)
         });
         let (got, want, hist) = r.map_err(|p| Fail::new("C08:panic", format!("{} at {}", p, v.describe())))?;
+        // the recorded hashes are the same through every accessor of the list
+        let views = guard(|| {
+            let l = eng.unwrap_play_phase().hash_history();
+            let head = l.head().map(|z| z.board_state_hash());
+            let tail: Vec<u64> = l.tail().iter().map(|z| z.board_state_hash()).collect();
+            (l.len(), l.is_empty(), head, tail, l.tail().len())
+        })
+        .map_err(|p| Fail::new("C08:panic", format!("{} at {}", p, v.describe())))?;
+        ensure!(
+            views.0 == hist.len() && views.1 == hist.is_empty() && views.2 == hist.first().copied() && views.3[..] == hist[hist.len().min(1)..] && views.4 == hist.len().saturating_sub(1),
+            "C08:history_views",
+            "the recorded start-of-turn hashes differ between iter() ({} entries) and len() = {} / is_empty() = {} / head() / tail() ({} entries) at {}",
+            hist.len(), views.0, views.1, views.3.len(), v.describe()
+        );
         ensure!(got == want, "C08:incremental_vs_scratch", "transposition hash {:#018x} differs from the from-scratch hash {:#018x} at {} (captures so far {}, turns {})", got, want, v.describe(), mo.captures_total, mo.turns_completed);
         // recorded start-of-turn hashes (most recent first) vs from-scratch hashes of the model's
         // start-of-turn positions; the engine may have forgotten older entries, never invented any
@@ -685,6 +699,12 @@ impl Obs for C09 {
         let (play, side) = guard(|| (v.eng.is_play_phase(), v.eng.is_p1_turn_to_move())).map_err(|p| Fail::new("C09:panic", p))?;
         ensure!(!play, "C09:phase", "play phase reported during setup at {}", v.describe());
         ensure!(side == v.m.gold_to_move, "C09:side", "side to move is {} at {}", if side { "gold" } else { "silver" }, v.describe());
+        // the square announced for the next placement is the next free home square of the mover, and the
+        // state does not pose as a play-phase state through any accessor
+        let (pbit, app) = guard(|| (v.eng.piece_board().placement_bit(), v.eng.as_play_phase().is_some())).map_err(|p| Fail::new("C09:panic", format!("{} at {}", p, v.describe())))?;
+        let next_sq = m::setup_square(v.m.gold_to_move, v.m.placed_by_mover());
+        ensure!(pbit == 1u64 << next_sq, "C09:placement_bit", "placement_bit() is {:#x}, but the next free home square of the mover is {} at {}", pbit, m::sq_name(next_sq), v.describe());
+        ensure!(!app, "C09:phase", "as_play_phase() returns a play phase during setup at {}", v.describe());
         if want.len() < 6 {
             st.bump("prefix_with_exhausted_type");
             st.nontrivial(v.m.board.fingerprint());
@@ -890,6 +910,10 @@ impl Obs for C12 {
         st.eval();
         let got = guard(|| status_of(v.eng.unwrap_play_phase().push_pull_state())).map_err(|p| Fail::new("C12:panic", format!("{} at {}", p, v.describe())))?;
         ensure!(got == v.m.status, "C12:status", "reported status {:?} but the previous step implies {:?} at {}", got, v.m.status, v.describe());
+        // the same status through its other accessor
+        let ap = guard(|| v.eng.unwrap_play_phase().push_pull_state().as_possible_pull().map(|(q, p)| (q.index() as u8, piece_to_kind(p)))).map_err(|p| Fail::new("C12:panic", format!("{} at {}", p, v.describe())))?;
+        let want_ap = if let Status::PossiblePull { sq, kind } = v.m.status { Some((sq, kind)) } else { None };
+        ensure!(ap == want_ap, "C12:status", "as_possible_pull() gives {:?} but the previous step implies {:?} at {}", ap, v.m.status, v.describe());
         if let Status::MustCompletePush { sq, kind } = v.m.status {
             let vanr = match steer_ok(v.vanr(), st) {
                 Some(l) => l,
